@@ -5,6 +5,7 @@ package discoverychain
 
 import (
 	"fmt"
+	"sort"
 	"strings"
 	"time"
 
@@ -453,7 +454,15 @@ func (c *compiler) detectCircularReferences() error {
 func (c *compiler) flattenAdjacentSplitterNodes() error {
 	for {
 		anyChanged := false
-		for _, node := range c.nodes {
+		// Visit the nodes in a fixed order: the rounded weights of chained
+		// splitters depend on the order in which they are flattened.
+		nodeIDs := make([]string, 0, len(c.nodes))
+		for id := range c.nodes {
+			nodeIDs = append(nodeIDs, id)
+		}
+		sort.Strings(nodeIDs)
+		for _, id := range nodeIDs {
+			node := c.nodes[id]
 			if node.Type != structs.DiscoveryGraphNodeTypeSplitter {
 				continue
 			}
